@@ -48,37 +48,41 @@ func CreateInMemory(parse parser.Parser) (*InMemory, error) {
 }
 
 func createInMemory(cursor *InMemory, parse parser.Parser, pos int) error {
-	n, isEnd, err := parse.Pull()
+	// This is a loop rather than a recursive call per event so that the
+	// stack usage does not grow with the number of nodes in the document.
+	for {
+		n, isEnd, err := parse.Pull()
 
-	if errors.Is(err, io.EOF) {
-		return nil
+		if errors.Is(err, io.EOF) {
+			return nil
+		}
+
+		if err != nil {
+			return err
+		}
+
+		if isEnd {
+			cursor = cursor.parent
+			continue
+		}
+
+		switch v := n.(type) {
+		case node.Namespace:
+			pos = addNamespace(v, cursor, pos)
+		case node.Attribute:
+			pos++
+			cursor.attributes = append(cursor.attributes, createNonElement(v, cursor, pos))
+		case node.Element:
+			pos++
+			var next *InMemory
+			next, pos = createElement(v, cursor, pos)
+			cursor.nodes = append(cursor.nodes, next)
+			cursor = next
+		default:
+			pos++
+			cursor.nodes = append(cursor.nodes, createNonElement(v, cursor, pos))
+		}
 	}
-
-	if err != nil {
-		return err
-	}
-
-	if isEnd {
-		return createInMemory(cursor.parent, parse, pos)
-	}
-
-	switch v := n.(type) {
-	case node.Namespace:
-		pos = addNamespace(v, cursor, pos)
-	case node.Attribute:
-		pos++
-		cursor.attributes = append(cursor.attributes, createNonElement(v, cursor, pos))
-	case node.Element:
-		pos++
-		next, pos := createElement(v, cursor, pos)
-		cursor.nodes = append(cursor.nodes, next)
-		return createInMemory(next, parse, pos)
-	default:
-		pos++
-		cursor.nodes = append(cursor.nodes, createNonElement(v, cursor, pos))
-	}
-
-	return createInMemory(cursor, parse, pos)
 }
 
 func addNamespace(ns node.Namespace, cursor *InMemory, pos int) int {
